@@ -12,10 +12,32 @@ struct fftw_plan_s {
     void *out; int onembed[8]; int ostride; int odist;
     int sign;
 };
+/* ---- verification instrumentation (used only by /verif drivers) ---- */
+static int g_trace = 0;
+static long *g_tin = NULL, *g_tout = NULL; static size_t g_nin = 0, g_nout = 0;
+#define NALLOC 256
+static void *g_aptr[NALLOC]; static size_t g_asz[NALLOC]; static int g_ai = 0;
+void fftw_shim_trace(int enable) { g_trace = enable; }
+long fftw_shim_trace_get(int which, long *buf, long cap) {
+    size_t n = which ? g_nout : g_nin; long *src = which ? g_tout : g_tin;
+    for (size_t i = 0; i < n && (long)i < cap; i++) buf[i] = src[i];
+    return (long)n;
+}
+long fftw_shim_alloc_size(void *p) {
+    for (int i = 0; i < NALLOC; i++) if (g_aptr[i] == p) return (long)g_asz[i];
+    return -1;
+}
 int fftw_init_threads(void) { return 1; }
 void fftw_plan_with_nthreads(int n) { (void)n; }
-void *fftw_malloc(size_t n) { void *p = NULL; if (posix_memalign(&p, 64, n ? n : 1)) return NULL; return p; }
-void fftw_free(void *p) { free(p); }
+void *fftw_malloc(size_t n) {
+    void *p = NULL; if (posix_memalign(&p, 64, n ? n : 1)) return NULL;
+    g_aptr[g_ai] = p; g_asz[g_ai] = n; g_ai = (g_ai + 1) % NALLOC;
+    return p;
+}
+void fftw_free(void *p) {
+    for (int i = 0; i < NALLOC; i++) if (g_aptr[i] == p) { g_aptr[i] = NULL; g_asz[i] = 0; }
+    free(p);
+}
 static fftw_plan mk(int kind, int rank, const int *n, int howmany, void *in, const int *inembed, int istride, int idist, void *out, const int *onembed, int ostride, int odist, int sign) {
     if (rank < 1 || rank > 8) return NULL;
     fftw_plan p = calloc(1, sizeof(*p));
@@ -107,10 +129,33 @@ static void exec_one(const fftw_plan p, int t, double complex *res, double *rres
         free(half);
     }
 }
+static void record_trace(const fftw_plan p) {
+    /* canonical order: transform t outermost, then row-major over the LOGICAL index domain
+       (full dims, or half last dim on the complex side of a real transform) */
+    int rank = p->rank; int din[8], dout[8], idx[8]; size_t nin = 1, nout = 1;
+    for (int i = 0; i < rank; i++) { din[i] = p->n[i]; dout[i] = p->n[i]; }
+    if (p->kind == 1) dout[rank - 1] = p->n[rank - 1] / 2 + 1;
+    if (p->kind == 2) din[rank - 1] = p->n[rank - 1] / 2 + 1;
+    for (int i = 0; i < rank; i++) { nin *= din[i]; nout *= dout[i]; }
+    free(g_tin); free(g_tout);
+    g_nin = nin * p->howmany; g_nout = nout * p->howmany;
+    g_tin = malloc(sizeof(long) * (g_nin ? g_nin : 1)); g_tout = malloc(sizeof(long) * (g_nout ? g_nout : 1));
+    for (int t = 0; t < p->howmany; t++) {
+        for (size_t f = 0; f < nin; f++) {
+            size_t r = f; for (int i = rank - 1; i >= 0; i--) { idx[i] = r % din[i]; r /= din[i]; }
+            g_tin[(size_t)t * nin + f] = (long)((size_t)t * p->idist + flat(idx, p->inembed, rank) * p->istride);
+        }
+        for (size_t f = 0; f < nout; f++) {
+            size_t r = f; for (int i = rank - 1; i >= 0; i--) { idx[i] = r % dout[i]; r /= dout[i]; }
+            g_tout[(size_t)t * nout + f] = (long)((size_t)t * p->odist + flat(idx, p->onembed, rank) * p->ostride);
+        }
+    }
+}
 void fftw_execute(const fftw_plan p) {
     int rank = p->rank; int dl[8]; size_t ntot = 1; int idx[8];
     for (int i = 0; i < rank; i++) { dl[i] = p->n[i]; ntot *= p->n[i]; }
     int nh = p->n[rank - 1] / 2 + 1;
+    if (g_trace) record_trace(p);
     double complex *res = NULL; double *rres = NULL;
     if (p->kind == 2) rres = malloc(sizeof(double) * ntot * p->howmany);
     else res = malloc(sizeof(double complex) * ntot * p->howmany);
